@@ -105,7 +105,7 @@ func (e *Env) eval(ex Expr) Val {
 		if v, ok := e.find(x.Name); ok {
 			return v
 		}
-		if x.Name == "ncall" {
+		if x.Name == "ncall" || x.Name == "loglen" {
 			return intVal(e.st.ncall)
 		}
 		if x.Name == "idmap" {
@@ -599,6 +599,16 @@ func (e *Env) call(x *ECall) Val {
 		k := e.eval(x.Args[1])
 		d := e.eval(x.Args[2])
 		return scalar(d.T, e.x.jsonObjVal(b, c.sortOf(k.T), e.x.jsonValSort(d), k.S))
+	case "logfun":
+		// logfun(n): the function value applied by the n-th callback application
+		argn(1)
+		return intVal(sel(e.x.logFun(e.st).S, e.evalInt(x.Args[0])))
+	case "logarg":
+		// logarg(n, c, d): component c of the arguments of the n-th application, typed like d
+		argn(3)
+		d := e.eval(x.Args[2])
+		srt := c.sortOf(d.T)
+		return scalar(d.T, sel(sel(e.x.logArgs(e.st, srt).S, e.evalInt(x.Args[0])), e.evalInt(x.Args[1])))
 	case "plus":
 		// a + b wrapped in the function symbol idx (defining axiom idx(a,b) = a+b): keeps the sum intact as a
 		// quantifier trigger where the solvers would otherwise flatten it into the surrounding arithmetic
